@@ -320,6 +320,17 @@ def write_evidence(prop, tier, seed, stats, wall, violations, extra=None):
         "inconclusive": stats.inconclusive,
         "exhaustive": False,
     }
+    if stats.counters.get("small_scope_instances"):
+        from . import smallscope
+
+        total = sum(1 for _ in smallscope.all_instances())
+        cov["small_scope"] = {
+            "domain": smallscope.DESCRIPTION,
+            "instances_enumerated": stats.counters["small_scope_instances"],
+            "instances_in_domain": total,
+            "complete_for_domain": stats.counters["small_scope_instances"] == total,
+            "nodes": stats.counters.get("small_scope_nodes", 0),
+        }
     if stats.notes:
         cov["notes"] = stats.notes[:20]
     if extra:
@@ -355,6 +366,23 @@ def worker_main(prop_id, tier, seed, index, out_path):
     stats = Stats()
     result = stats.to_json()
     try:
+        failure = None
+        wc = getattr(prop, "worker_cases", None)
+        if wc is not None:
+            # deterministic share of an enumeration (e.g. small-scope exhaustive)
+            n_workers = min(N_WORKERS, getattr(prop, "MAX_WORKERS", N_WORKERS))
+            for case in wc(tier, index, n_workers):
+                ctx = Ctx(prop_id, known_clauses, tier)
+                failure = run_case(prop, case, ctx)
+                if failure is not None:
+                    break
+                stats.absorb(case, ctx)
+        if failure is not None:
+            result = stats.to_json()
+            result["failure"] = failure.to_json(prop_id)
+            with open(out_path, "w", encoding="utf-8") as f:
+                json.dump(result, f)
+            return
         failure = generate(
             prop,
             tier,
